@@ -40,9 +40,16 @@ def _job(args):
     try:
         if payload["kind"] == "mc":
             ser = series.necklace_series_n(payload["inst"], payload["seed"])
-        else:
-            ser = series.random_series_min3(payload["seed"], payload.get("big", False))
-        return case, series.observe_accel(case, ser, rhs_seed=payload["seed"]), ""
+            return case, series.observe_accel(case, ser, rhs_seed=payload["seed"]), ""
+        # random series: the first of seed, seed + 15485863, .. whose coordinates stay inside the fixed-point range
+        # (|x| < 2000 after a run of stretches outside the tracking bounds is not guaranteed by the generator)
+        for j in range(6):
+            ser = series.random_series_min3(payload["seed"] + 15485863 * j, payload.get("big", False))
+            try:
+                return case, series.observe_accel(case, ser, rhs_seed=payload["seed"]), ""
+            except OverflowError:
+                continue
+        raise OverflowError("no series inside the fixed-point range")
     except Exception as exc:  # a failure outside the guarded calls = harness problem, not a verdict
         import traceback
         return case, None, f"{payload.get('kind')} seed={payload.get('seed')}: {exc!r} {traceback.format_exc()[-600:]}"
